@@ -20,7 +20,7 @@ import (
 type c12Named struct{ Kind, Val string }
 
 // the request is always for the site "example.com"
-var c12ReqHosts = []struct{ Name, Port string }{{"example.com", ""}, {"example.com", "8080"}, {"EXAMPLE.COM", ""}}
+var c12ReqHosts = []struct{ Name, Port string }{{"example.com", ""}, {"example.com", "8080"}, {"EXAMPLE.COM", ""}, {"[::1]", "8080"}}
 
 var c12Schemes = []string{"https", "http", "HTTP"}
 
@@ -37,7 +37,9 @@ var c12Hosts = []c12Named{
 	{"mixed-case", "EXAMPLE.com"},
 	{"different", "evil.org"},
 	{"different-t", "tevil.org"}, // differs from "evil.org" by a leading letter of "https://"
-	{"different-g", "gevil.org"}, // "evil.or"+"gevil.org" reads like "evil.org"+"evil.org"
+	{"different-g", "gevil.org"},
+	{"ipv6-literal", "[::1]"}, // equal to the request host [::1]:8080 (with port 8080), a different host otherwise
+	{"ipv6-inner-digit", "1"}, // a character of the literal's bracket expression // "evil.or"+"gevil.org" reads like "evil.org"+"evil.org"
 	{"prefix", "example.co"},
 	{"suffix-lookalike", "notexample.com"},
 	{"host-as-prefix", "example.com.evil.org"},
@@ -210,6 +212,12 @@ func c12One(c *fw.Ctx, cs c12Case) (upgraded bool) {
 	raw := cs.Raw
 	if !cs.NoOrigin && !cs.Hostless {
 		raw = cs.Origin.String() // replay files are authoritative on the parts, not on Raw
+	}
+	if !cs.NoOrigin && !cs.Hostless && cs.UserKind == "plain" {
+		// forwarding headers name the origin's host: they are not part of the decision
+		hdr["X-Forwarded-Host"] = []string{cs.Origin.HostPort()}
+		hdr["Forwarded"] = []string{"host=" + cs.Origin.HostPort()}
+		hdr["X-Forwarded-Server"] = []string{cs.Origin.HostPort()}
 	}
 	if !cs.NoOrigin {
 		hdr["Origin"] = []string{raw}
